@@ -6,7 +6,7 @@ func init() {
 		reg(&Property{
 			ID: id, Title: title,
 			Kernels: []Kernel{
-				{Name: "symschema", Pkg: "merger", Files: []string{"merger/c03.go"}, Entry: "VerifMerge", Mode: "seq",
+				{Name: "symschema", Pkg: "merger", Files: []string{"merger/c03.go"}, Entry: "VerifMerge", Mode: "seq", Native: true,
 					Quick: map[string]int{"services": 2, "kinds": 7, "property": prop}, Thorough: map[string]int{"services": 3, "kinds": 3, "property": prop},
 					Reach: reach, Functions: fns, Known: known},
 			},
